@@ -140,18 +140,22 @@ def parse_cex(trace, prop_name):
 _bins = {}
 
 
-def replayer():
-    if 'b' not in _bins:
-        tdir = os.path.join(os.environ.get('VERIF_BUILD_DIR') or os.path.join(VERIF, 'build'), 'native-default')
+def replayer(config='default'):
+    """native replayer built against the repository in the given configuration (unstable needs the nightly toolchain)"""
+    if config not in _bins:
+        tdir = os.path.join(os.environ.get('VERIF_BUILD_DIR') or os.path.join(VERIF, 'build'), 'native-' + config)
         out = {}
         for prof, flag in (('dev', []), ('release', ['--release'])):
-            rc, o, dt = sh(['cargo', 'build', '--offline', '--bin', 'replay', '--target-dir', tdir] + flag, cwd=HARNESS, timeout=1800)
+            cmd = ['cargo'] + (['+nightly'] if config == 'unstable' else []) + ['build', '--offline', '--bin', 'replay', '--target-dir', tdir] + flag
+            if config == 'unstable':
+                cmd += ['--features', 'unstable']
+            rc, o, dt = sh(cmd, cwd=HARNESS, timeout=1800)
             if rc != 0:
-                _bins['b'] = (None, o[-600:])
-                return _bins['b']
+                _bins[config] = (None, o[-600:])
+                return _bins[config]
             out[prof] = os.path.join(tdir, 'debug' if prof == 'dev' else 'release', 'replay')
-        _bins['b'] = (out, '')
-    return _bins['b']
+        _bins[config] = (out, '')
+    return _bins[config]
 
 
 def native_args(scen, n, m, cex):
@@ -164,8 +168,8 @@ def native_args(scen, n, m, cex):
     return a
 
 
-def native_replay(scen, n, m, cex):
-    bins, err = replayer()
+def native_replay(scen, n, m, cex, config='default'):
+    bins, err = replayer(config)
     if bins is None:
         return None, err
     args = native_args(scen, n, m, cex)
@@ -178,9 +182,9 @@ def native_replay(scen, n, m, cex):
     return out, ''
 
 
-def selftest(gen, ns, log):
+def selftest(gen, ns, log, config='default'):
     """differential self-test of the encoding: gcc-compiled translation vs the real crate (native, real unwinding)"""
-    bins, err = replayer()
+    bins, err = replayer(config)
     if bins is None:
         return 0, ['replayer does not build: ' + err]
     total, problems = 0, []
@@ -215,8 +219,10 @@ def run(prop, tier, spec, log, baseline=None, quiet=False):
         res['undecided'].append('E2: ' + info.get('error', 'translation failed'))
         return res
     part['functions_translated'] = info['functions']
+    cfg = 'unstable' if 'unstable' in spec.get('features', []) else 'default'
+    part['native_config'] = cfg
     if spec.get('selftest', True):
-        n_cases, problems = selftest(gen, [0, 1, 2, 3] if tier == 'quick' else [0, 1, 2, 3, 4], log)
+        n_cases, problems = selftest(gen, [0, 1, 2, 3] if tier == 'quick' else [0, 1, 2, 3, 4], log, cfg)
         part['traces_validated_against_impl'] = n_cases
         part['selftest'] = '%d concrete cases (operation x layout x argument x fault) identical between the gcc-compiled translation and the real crate' % n_cases
         for pb in problems:
@@ -319,7 +325,7 @@ def run(prop, tier, spec, log, baseline=None, quiet=False):
         tried = []
         for p in failed[:4]:
             cex = parse_cex(tr.get('trace', ''), p[0])
-            nat, err = native_replay(j['scen'], j['n'], j['m'], cex)
+            nat, err = native_replay(j['scen'], j['n'], j['m'], cex, cfg)
             tried.append(dict(check=p[2], cex=cex, native=nat, err=err))
             if nat and any(rc == 1 for rc, _ in nat.values()):
                 confirmed = tried[-1]
@@ -328,7 +334,7 @@ def run(prop, tier, spec, log, baseline=None, quiet=False):
             rdir = os.path.join(os.environ.get('VERIF_REPLAY_DIR') or os.path.join(VERIF, 'replays'), prop)
             os.makedirs(rdir, exist_ok=True)
             path = os.path.join(rdir, 'e2_%s_n%d_m%d_f%d.json' % (j['scen'].lower(), j['n'], j['m'], j['faults']))
-            rec = dict(engine='E2', property=prop, scenario=j['scen'], n=j['n'], m=j['m'], check=confirmed['check'], cex=confirmed['cex'],
+            rec = dict(engine='E2', property=prop, scenario=j['scen'], n=j['n'], m=j['m'], config=cfg, check=confirmed['check'], cex=confirmed['cex'],
                        native=confirmed['native'], replay='harness replay ' + ' '.join(native_args(j['scen'], j['n'], j['m'], confirmed['cex'])))
             json.dump(rec, open(path, 'w'), indent=1)
             role = '%s/%s' % (NATIVE_OP.get(j['scen'], j['scen']), {1: 'drop-panic', 2: 'clone-panic', 3: 'closure-panic', 4: 'iterator-panic', 0: 'no-fault'}.get(confirmed['cex'].get('kind', 0), 'fault'))
@@ -352,7 +358,7 @@ def run(prop, tier, spec, log, baseline=None, quiet=False):
         kinds = '' if 0 in modes or (1 in modes and 2 in modes) else ('0,1' if 1 in modes else ('0,2,3,4,5' if 2 in modes else '0'))
         scens = set(sc for (sc, _, _) in spec['jobs'][tier])
         ops = set(NATIVE_OP.get(sc) for sc in scens)
-        bins, err = replayer()
+        bins, err = replayer(cfg)
         if bins:
             for n in ([0, 1, 2, 3] if tier == 'quick' else [0, 1, 2, 3, 4]):
                 rc, out, _ = sh([bins['dev'], 'e2-judge', str(n)] + ([kinds] if kinds else []), timeout=900)
@@ -368,7 +374,7 @@ def run(prop, tier, spec, log, baseline=None, quiet=False):
                     kv, why = hit
                     scen = [k for k, v in NATIVE_OP.items() if v == kv['op'] and k in scens][0]
                     cex = {k: int(kv[k]) for k in ('start', 'size', 'a', 'b', 'start2', 'size2', 'kind', 'at')}
-                    nat, _e = native_replay(scen, int(kv['N']), int(kv['M']), cex)
+                    nat, _e = native_replay(scen, int(kv['N']), int(kv['M']), cex, cfg)
                     if nat and any(rc2 == 1 for rc2, _ in nat.values()):
                         rdir = os.path.join(os.environ.get('VERIF_REPLAY_DIR') or os.path.join(VERIF, 'replays'), prop)
                         os.makedirs(rdir, exist_ok=True)
@@ -385,8 +391,39 @@ def run(prop, tier, spec, log, baseline=None, quiet=False):
     return res
 
 
+def native_differential(prop, tier, log):
+    """C18: the self-test case space on the real crate in the default and in the unstable build must print the same
+    lines (results, contents, panics, destructor runs and their order); -> list of violation records"""
+    (b0, e0), (b1, e1) = replayer('default'), replayer('unstable')
+    if not b0 or not b1:
+        return None, 'replayer does not build: %s %s' % (e0[-200:], e1[-200:])
+    out, total = [], 0
+    for n in ([0, 1, 2, 3] if tier == 'quick' else [0, 1, 2, 3, 4]):
+        _, o0, _ = sh([b0['dev'], 'e2-sweep', str(n)], timeout=900)
+        _, o1, _ = sh([b1['dev'], 'e2-sweep', str(n)], timeout=900)
+        l0, l1 = o0.strip().split('\n'), o1.strip().split('\n')
+        total += len(l0)
+        for a, b in zip(l0, l1):
+            if a != b:
+                out.append((n, a, b))
+        if len(l0) != len(l1):
+            out.append((n, 'line counts differ', '%d vs %d' % (len(l0), len(l1))))
+    return (out, total), ''
+
+
 def replay(rec, log):
-    nat, err = native_replay(rec['scenario'], rec['n'], rec['m'], rec['cex'])
+    if rec.get('differential'):
+        for cfg in ('default', 'unstable'):
+            bins, err = replayer(cfg)
+            if not bins:
+                log(err)
+                return 2
+            c = rec['case']
+            rc, o, _ = sh([bins['dev'], 'e2'] + ['%s=%s' % kv for kv in c.items()], timeout=120)
+            log('%s build: %s' % (cfg, ' | '.join(l for l in o.split('\n') if l.startswith('E2'))))
+        log('VIOLATION property=%s replay=(the two builds print different lines above, if the difference persists)' % rec['property'])
+        return 1
+    nat, err = native_replay(rec['scenario'], rec['n'], rec['m'], rec['cex'], rec.get('config', 'default'))
     if nat is None:
         log(err)
         return 2
